@@ -223,6 +223,78 @@ pub fn run(ctx: &mut Ctx) {
         }
     }
 
+    // nesting chains around the depth limits, through every kind of container on the way down: plain arrays, dicts (nesting
+    // continues in the VALUE), structs with the nesting in the first / last / only field, and (GVariant builds) maybes,
+    // in random order. The limits count per kind (32 arrays, 32 structs), so a counter that misses one route shows here.
+    let chains = ctx.budget(6_000, 300_000);
+    for i in 0..chains {
+        let idx = 8_500_000_000 + i;
+        if !ctx.want(idx) {
+            continue;
+        }
+        let mut rng = ctx.rng(idx);
+        let na = *rng.pick(&[0usize, 3, 30, 31, 32, 33, 34]);
+        let ns = *rng.pick(&[0usize, 3, 30, 31, 32, 33, 34]);
+        let nm = if allow_maybe() { *rng.pick(&[0usize, 0, 1, 3]) } else { 0 };
+        let mut kinds: Vec<u8> = Vec::new();
+        kinds.extend(std::iter::repeat(b'a').take(na));
+        kinds.extend(std::iter::repeat(b'(').take(ns));
+        kinds.extend(std::iter::repeat(b'm').take(nm));
+        rng.shuffle(&mut kinds);
+        let dict_share = *rng.pick(&[0u64, 1, 2, 4]);
+        let mut open = String::new();
+        let mut close: Vec<&str> = Vec::new();
+        for k in &kinds {
+            match k {
+                b'a' => {
+                    if dict_share > 0 && rng.chance(dict_share, 4) {
+                        open.push_str(*rng.pick(&["a{s", "a{y", "a{o"]));
+                        close.push("}");
+                    } else {
+                        open.push('a');
+                        close.push("");
+                    }
+                }
+                b'(' => match rng.below(3) {
+                    0 => {
+                        open.push('(');
+                        close.push(")");
+                    }
+                    1 => {
+                        open.push_str("(i");
+                        close.push(")");
+                    }
+                    _ => {
+                        open.push('(');
+                        close.push("s)");
+                    }
+                },
+                _ => {
+                    open.push('m');
+                    close.push("");
+                }
+            }
+        }
+        let mut sig = open;
+        sig.push(*rng.pick(&['y', 's', 'v', 'i']));
+        for c in close.iter().rev() {
+            sig.push_str(c);
+        }
+        if sig.len() > 255 {
+            continue;
+        }
+        let b = sig.into_bytes();
+        ctx.count("nesting_chains", 1);
+        if na > 32 || ns > 32 {
+            ctx.count("nesting_chains_beyond_a_limit", 1);
+        }
+        if dict_share > 0 && na >= 30 {
+            ctx.count("nesting_chains_through_dict_values", 1);
+        }
+        let b2 = b.clone();
+        ctx.guarded(idx, "nesting-chain", || json!({"input": String::from_utf8_lossy(&b2)}), |ctx| check_string(ctx, idx, &b2, i % 8 == 0));
+    }
+
     // grammar-directed random signatures (valid ones, long, deep) and mutations of them
     let n = ctx.budget(20_000, 2_000_000);
     for i in 0..n {
